@@ -92,6 +92,14 @@ Setup makeSetup() {
     g.definition = mk(K::FuncDef, { mk(K::Arguments, { mk(K::ArgDecl, { leaf(K::Local, "a"), leaf(K::Global, "X1") }), mk(K::ArgDecl, { leaf(K::Local, "b"), mk(K::Boolean, { leaf(K::Global, "X1") }) }) }),
                                     mk(K::Declarative, { leaf(K::Local, "c"), leaf(K::Local, "b"), mk(K::Ne, { leaf(K::Local, "c"), leaf(K::Local, "a") }) }) });
     G["F2"] = g; s.defText["F2"] = "F2:==[a\xE2\x88\x88X1, b\xE2\x88\x88\xE2\x84\xAC(X1)] D{c\xE2\x88\x88" "b | c\xE2\x89\xA0" "a}"; }
+  // F3[a∈R1×R2] := pr2(a) : R2      (template parameters inside a tuple-shaped parameter)
+  { rssem::Global g; g.type = ETy::T(Ty::base("R2")); g.args = { { "a", Ty::tuple({ Ty::base("R1"), Ty::base("R2") }) } };
+    g.definition = mk(K::FuncDef, { mk(K::Arguments, { mk(K::ArgDecl, { leaf(K::Local, "a"), mk(K::Decart, { leaf(K::Radical, "R1"), leaf(K::Radical, "R2") }) }) }), mkidx(K::SmallPr, { 2 }, { leaf(K::Local, "a") }) });
+    G["F3"] = g; s.defText["F3"] = "F3:==[a\xE2\x88\x88R1\xC3\x97R2] pr2(a)"; }
+  // F4[a∈ℬ(R1×R2)] := Pr2,1(a) : ℬ(R2×R1)   (converse of a relation)
+  { rssem::Global g; g.type = ETy::T(Ty::set(Ty::tuple({ Ty::base("R2"), Ty::base("R1") }))); g.args = { { "a", Ty::set(Ty::tuple({ Ty::base("R1"), Ty::base("R2") })) } };
+    g.definition = mk(K::FuncDef, { mk(K::Arguments, { mk(K::ArgDecl, { leaf(K::Local, "a"), mk(K::Boolean, { mk(K::Decart, { leaf(K::Radical, "R1"), leaf(K::Radical, "R2") }) }) }) }), mkidx(K::BigPr, { 2, 1 }, { leaf(K::Local, "a") }) });
+    G["F4"] = g; s.defText["F4"] = "F4:==[a\xE2\x88\x88\xE2\x84\xAC(R1\xC3\x97R2)] Pr2,1(a)"; }
   // P1[a∈X1] := a∈D1 : LOGIC
   { rssem::Global g; g.type = ETy::L(); g.args = { { "a", X1 } };
     g.definition = mk(K::FuncDef, { mk(K::Arguments, { mk(K::ArgDecl, { leaf(K::Local, "a"), leaf(K::Global, "X1") }) }), mk(K::In, { leaf(K::Local, "a"), leaf(K::Global, "D1") }) });
@@ -500,7 +508,7 @@ int main(int argc, char** argv) {
     res.rule = cmp ? "case = well-typed expression; per interpretation x {MATH, ASCII, max parentheses} x {enumerated, lazy power set / product}: Interpreter::Evaluate must equal the reference evaluator's value; documented failures only where some evaluation order meets the condition; non-trivial = produced a value under some interpretation"
                    : "case = any generated expression the implementation's checker accepts (well-typed ones and one-premise-violations alike); per interpretation: no fault (ASan/UBSan), no exception, no unknownError, truth value iff LOGIC, value has the deep structure of the reported typification";
   } else { fprintf(stderr, "unknown mode\n"); return 2; }
-  res.alphabet = "context: X1 X2 (nominal bases), C1 (integral constant set), S1:ℬ(X1×X1) S2:ℬℬ(X1) S3:ℬ(C1×X1) D1:ℬ(X1) D2:X1 D3:Z D4:props, A1:LOGIC, F1[a∈ℬ(R1)] F2[a∈X1,b∈ℬ(X1)] P1[a∈X1]; literals 1 2 ∅ Z; missing X9; all node constructors";
+  res.alphabet = "context: X1 X2 (nominal bases), C1 (integral constant set), S1:ℬ(X1×X1) S2:ℬℬ(X1) S3:ℬ(C1×X1) D1:ℬ(X1) D2:X1 D3:Z D4:props, A1:LOGIC, F1[a∈ℬ(R1)] F2[a∈X1,b∈ℬ(X1)] F3[a∈R1×R2] F4[a∈ℬ(R1×R2)] P1[a∈X1]; literals 1 2 ∅ Z; missing X9; all node constructors";
   res.evaluations = res.rep.counters["evaluations"]; res.transitions = res.rep.counters["checks"]; res.traces_validated = res.evaluations;
   res.distinct_nontrivial = res.rep.counters["nontrivial"];
   res.exhaustive = !ri.deadline_hit && !ri.crash_cap_hit;
